@@ -8,7 +8,9 @@ open TorrentVerif
 
 /-- An integer piece length is accepted exactly when it is an exponent 14..25 or a power of
     two that is at least 2^14; every other integer (negative, zero, small, not a power of
-    two, exponents 26 and above) is rejected with the piece-length error. -/
+    two, exponents 26 and above) is rejected with the piece-length error.  There is no bound on
+    the size of the integer (Python ints and `Int` are unbounded; integers of more than 4300
+    digits included). -/
 theorem normalize_accepts_iff (n : Int) :
     ((∃ r, Impl.normalizeInt n = .ok r) ↔
       ((14 ≤ n ∧ n ≤ 25) ∨ (2 ^ 14 ≤ n ∧ ∃ k : Nat, n = 2 ^ k))) ∧
